@@ -11,6 +11,7 @@ Open Scope nat_scope.
 
 Lemma failure_returned_as_result_spec : failure_returned_as_result = true. Proof. vm_compute. reflexivity. Qed.
 Lemma death_in_apply_restarts_worker_spec : death_in_apply_restarts_worker = true. Proof. vm_compute. reflexivity. Qed.
+Lemma timeout_interrupts_spec : timeout_interrupts_before_it_sets = true. Proof. vm_compute. reflexivity. Qed.
 Lemma interrupted_task_sends_nothing_spec : interrupted_task_sends_nothing = true. Proof. vm_compute. reflexivity. Qed.
 
 (* AsyncResult._set, characterised *)
@@ -80,7 +81,7 @@ Proof.
     assert (Hjo : job_ok j). { rewrite Forall_forall in Hj. apply Hj. eapply nth_error_In; eauto. }
     destruct Hjo as (H1 & H2 & H3).
     destruct (j_phase j) eqn:Hp; try discriminate. destruct (j_oc j) eqn:Ho; try discriminate.
-    destruct (j_to j); [|discriminate]. inversion Hs; subst s'; clear Hs. split; [assumption|]. cbn.
+    destruct (j_to j); [|discriminate]. rewrite timeout_interrupts_spec in Hs. inversion Hs; subst s'; clear Hs. split; [assumption|]. cbn.
     apply Forall_upd; [assumption|]. destruct (H1 H3) as (Hc & Hcb & Hecb & Hsu). rewrite Hc.
     unfold job_ok, set_result. rewrite async_set_spec. cbn. rewrite Hcb, Hecb, Ho. cbn.
     repeat split; auto; try discriminate.
@@ -151,7 +152,7 @@ Proof.
     rewrite Hms in Q1. discriminate.
   - (* running *)
     rewrite failure_returned_as_result_spec in Q1. destruct (j_oc k) eqn:Ho; try discriminate.
-    rewrite (Hto k (nth_error_In _ _ Hn) Ho) in Q3. discriminate.
+    rewrite (Hto k (nth_error_In _ _ Hn) Ho), timeout_interrupts_spec in Q3. discriminate.
   - discriminate.
   - congruence.
   - rewrite death_in_apply_restarts_worker_spec in Q4. discriminate.
